@@ -41,6 +41,7 @@ type Wiring struct {
 }
 
 type Resp struct {
+	Ext     []string // sorted keys of the response's extensions
 	Data    string
 	Errors  []ErrKey
 	Msgs    []string
@@ -62,6 +63,8 @@ type Case struct {
 	IgnoreCancel bool `json:"ignore_cancel,omitempty"`
 	// Intercept: the fault-capable field interceptor is registered and active (C04).
 	Intercept bool `json:"intercept,omitempty"`
+	// RegisterExt: resolvers register one response extension each (key "x@"+path)
+	RegisterExt bool `json:"register_ext,omitempty"`
 	// DefaultRecover: no recover function is configured, gqlgen's own DefaultRecover
 	// presents panics ("internal system error"); the hook cannot be counted then.
 	DefaultRecover bool `json:"default_recover,omitempty"`
@@ -261,7 +264,7 @@ func deepCopy(v any) any {
 
 func (in *Inst) Body() {
 	s := in.S
-	in.Env = &Env{Plan: in.C.Plan, DefaultImpl: s.W.DefaultImpl, AltImpl: s.W.AltImpl, RogueImpl: s.W.RogueImpl, Yield: in.C.Yield, HonourCancel: in.C.Cancel && !in.C.IgnoreCancel, Intercept: in.C.Intercept, MapFields: s.mapFields}
+	in.Env = &Env{Plan: in.C.Plan, DefaultImpl: s.W.DefaultImpl, AltImpl: s.W.AltImpl, RogueImpl: s.W.RogueImpl, Yield: in.C.Yield, HonourCancel: in.C.Cancel && !in.C.IgnoreCancel, Intercept: in.C.Intercept, MapFields: s.mapFields, RegisterExt: in.C.RegisterExt}
 	s.cur = in.Env
 	ctx := context.Background()
 	if in.C.Cancel {
@@ -320,6 +323,10 @@ func (in *Inst) Body() {
 	}
 	for _, resp := range held {
 		r := Resp{Data: string(resp.Data), HasNext: resp.HasNext, Label: resp.Label, Path: resp.Path.String()}
+		for k := range resp.Extensions {
+			r.Ext = append(r.Ext, k)
+		}
+		sort.Strings(r.Ext)
 		for _, e := range resp.Errors {
 			r.Errors = append(r.Errors, ErrKey{Path: e.Path.String(), Kind: classify(e.Message)})
 			r.Msgs = append(r.Msgs, e.Path.String()+": "+e.Message)
@@ -431,6 +438,19 @@ func (in *Inst) compareRef(q Quirks) string {
 	for _, e := range ref.Errors {
 		if e.Kind == "panic" {
 			np++
+		}
+	}
+	if in.C.RegisterExt {
+		// one extension per resolver invocation, none lost, none extra
+		var wantExt []string
+		for _, c := range ref.Calls {
+			if i := strings.IndexByte(c, '|'); i >= 0 {
+				wantExt = append(wantExt, "x@"+c[:i])
+			}
+		}
+		sort.Strings(wantExt)
+		if !eqStrings(wantExt, in.Resp[0].Ext) {
+			return fmt.Sprintf("extensions mismatch:\n  want %v\n  got  %v", wantExt, in.Resp[0].Ext)
 		}
 	}
 	if in.Env.Panics != np && !in.C.DefaultRecover {
